@@ -226,6 +226,14 @@ func (l *Lexer) readString(sep byte) (string, bool) {
 				ch = '\n'
 			case 't':
 				ch = '\t'
+			case 'a': // \a \b \f \v: as in go, and what the printer (strconv.Quote) emits for these bytes.
+				ch = '\a'
+			case 'b':
+				ch = '\b'
+			case 'f':
+				ch = '\f'
+			case 'v':
+				ch = '\v'
 			case 'u':
 				buf.WriteRune(l.readUnicode16())
 				continue
